@@ -8,7 +8,7 @@ VARIABLES cmd, route, confdir, input
 vars == <<cmd, route, confdir, input>>
 
 Routes   == {"file-file", "stdin-file", "file-stdout", "stdin-stdout"}
-ConfDirs == {"disabled", "fresh", "existing"}
+ConfDirs == {"disabled", "fresh", "existing", "outdated"}   \* outdated: config.yml of another major.minor version (a warning is logged)
 Inputs   == {"valid", "garbage", "empty"}
 
 StreamCmds == {i \in 1..Len(Kinds) : Stream[i]}
